@@ -216,6 +216,20 @@ Theorem C07_orphans_removed_any_kind_fixed :
     ~ In (nkey n) (map nkey (gnodes (s_g r))) /\ fs_get (s_fs r) (nlabel n) = None.
 Proof. exact orphans_removed_any_kind. Qed.
 
+(* Likewise for C07_optional_outputs_removed (disk part): an output of an attached step with _implied_need = OPTIONAL
+   that can be unlinked and -- unless VOLATILE -- reads as exactly the recorded hash is not on disk after finalize. *)
+Theorem C07_optional_outputs_removed_any_kind_fixed :
+  forall c g f n v,
+    rdf_decide_first = true ->
+    existsb (guard_fires c) finalize_guards = false ->
+    keys_nodup g ->
+    In n (gnodes g) -> is_revert_target g n = true ->
+    rq_value n = Some v ->
+    (v = None \/ exists h, v = Some h /\ stat f (nlabel n) = SFile h) ->
+    is_unlinkable (fs_get f (nlabel n)) = true ->
+    fs_get (s_fs (finalize c (init_state g f))) (nlabel n) = None.
+Proof. exact optional_outputs_removed_any_kind. Qed.
+
 (* Non-vacuity: root -> step s (detached) creates step t creates file o, s has o as amended input
    (a cycle s -> t -> o -> s), plus a detached orphan file x. The cycle survives, x is deleted and
    queued with its recorded hash, its directory is marked. *)
